@@ -214,6 +214,40 @@ func run(c *mon.Ctx) {
 		}
 	})
 	sym := []byte{0x47, 0x47, 0x47, 0x00, 0x10, 0x05, 0x1f, 0xff, 0x30, 0x04, 0x0f, 0x03, 0x20, 0x0c}
+	// the search is a function of its reader's content whoever else is searching another stream at that moment
+	c.Floor("concurrent.calls", 20000)
+	c.Stream("concurrent-searches", c.N(3, 150), func(i int, r *gen.Rand) {
+		c.Concurrent("packet.Sync on readers of their own", 8, 1500, r, func(q *gen.Rand) string {
+			n := q.Intn(60)
+			if q.Chance(6) {
+				n = 188 + q.Intn(400)
+			}
+			s := make([]byte, n)
+			for k := range s {
+				s[k] = sym[q.Intn(len(sym))]
+			}
+			if q.Chance(2) && n >= 4 {
+				at := q.Intn(n - 3)
+				pid := q.PickInt([]int{0, 3, 16, 0x100, 0x1fff, 0x1ffe})
+				copy(s[at:], []byte{0x47, byte(pid >> 8), byte(pid), byte(0x10 + 0x10*q.Intn(3))})
+			}
+			br := bufio.NewReaderSize(bytes.NewReader(s), q.PickInt([]int{16, 17, 64, 4096}))
+			off, err := packet.Sync(br)
+			want := refSync(s)
+			if want < 0 {
+				if err != gots.ErrSyncByteNotFound {
+					return fmt.Sprintf("Sync on a %d-byte stream without a plausible header returned %d, %v", len(s), off, err)
+				}
+				return ""
+			}
+			rest, _ := io.ReadAll(br)
+			if err != nil || int(off) != want || !bytes.Equal(rest, s[want:]) {
+				return fmt.Sprintf("Sync returned offset %d, %v with %d bytes left to read; the first plausible header is at %d of %d", off, err, len(rest), want, len(s))
+			}
+			return ""
+		})
+		c.Class("concurrent-searches")
+	})
 	c.Stream("random", c.N(60000, 100000000), func(i int, r *gen.Rand) {
 		n := r.Intn(40)
 		if r.Chance(5) {
